@@ -138,6 +138,7 @@ type FnCtx struct {
 	finalVals   map[string]envVar
 	defineDepth int
 	defInfos    map[string]*defineInfo
+	curCall     *ssa.CallCommon // the call being modelled by a library model
 }
 
 type deferRec struct {
@@ -534,6 +535,9 @@ func (fc *FnCtx) enterLoop(li *loopInfo, in *State) *State {
 			g := fc.transBool(env, c)
 			fc.oblige(in, "inv-init", fmt.Sprintf("%s#inv-init#L%d.%d", fc.fnName(), li.ordinal, j), g, c.Where, c.Text)
 		}
+		if spec.Frame {
+			fc.oblige(in, "inv-init", fmt.Sprintf("%s#inv-init#L%d.frame", fc.fnName(), li.ordinal), fc.loopFrame(li, in), spec.FrameWhere, "loop frame: objects allocated at entry keep their contents")
+		}
 	}
 	if fc.pureMode {
 		fc.unsup("loop in pure function")
@@ -566,6 +570,9 @@ func (fc *FnCtx) enterLoop(li *loopInfo, in *State) *State {
 		env := fc.loopEnv(hs, li)
 		for _, c := range spec.Invariants {
 			fc.assume(hs, fc.transBool(env, c))
+		}
+		if spec.Frame && !fc.pureMode {
+			fc.assume(hs, fc.loopFrame(li, hs))
 		}
 	}
 	return hs
@@ -606,6 +613,9 @@ func (fc *FnCtx) closeLoop(li *loopInfo, st *State) {
 		for j, c := range spec.Invariants {
 			g := fc.transBool(env, c)
 			fc.oblige(st, "inv-pres", fmt.Sprintf("%s#inv-pres#L%d.%d", fc.fnName(), li.ordinal, j), g, c.Where, c.Text)
+		}
+		if spec.Frame {
+			fc.oblige(st, "inv-pres", fmt.Sprintf("%s#inv-pres#L%d.frame", fc.fnName(), li.ordinal), fc.loopFrame(li, st), spec.FrameWhere, "loop frame: objects allocated at entry keep their contents")
 		}
 		if spec.Decreases != nil {
 			henv := fc.loopEnv(li.headState, li)
